@@ -63,6 +63,8 @@ func runC17(o *Out, r *rand.Rand) {
 	}
 }
 
+var c17Counter int
+
 func c17Case(o *Out, op string, vec []fakeOutcome, order []int) {
 	n := len(vec)
 	sc := &fakeScenario{perAddr: map[string]fakeOutcome{}, gates: map[string]chan struct{}{}}
@@ -75,6 +77,13 @@ func c17Case(o *Out, op string, vec []fakeOutcome, order []int) {
 		sc.perAddr[a] = vec[i]
 		gates[i] = make(chan struct{})
 		sc.gates[a] = gates[i]
+	}
+	// in half of the cases dropping a broken client is slow (its Close takes 3 ms): the verdict
+	// must still account for that server's failure
+	c17Counter++
+	slow := c17Counter%2 == 0
+	if slow {
+		sc.slowClose = 3 * time.Millisecond
 	}
 	setScenario(sc)
 	xc, _ := mkXClient(n, client.Failfast, 0, client.RandomSelect)
@@ -106,7 +115,7 @@ func c17Case(o *Out, op string, vec []fakeOutcome, order []int) {
 			select {
 			case res = <-resCh:
 				returned = true
-			case <-time.After(4 * time.Millisecond):
+			case <-time.After(6 * time.Millisecond):
 			}
 		}
 	}
@@ -134,7 +143,7 @@ func c17Case(o *Out, op string, vec []fakeOutcome, order []int) {
 		spec = append(spec, fmt.Sprintf("s%d:%d:%d", i, k, i+1))
 	}
 	line := fmt.Sprintf("fan %s %s", op, strings.Join(spec, ","))
-	rp := map[string]any{"case": line, "err": fmt.Sprint(res.err)}
+	rp := map[string]any{"case": line, "err": fmt.Sprint(res.err), "slow_close_of_broken_clients": slow}
 	nontrivial := !allOK
 	o.Count("op." + op)
 	b := func(x bool) string {
